@@ -5,11 +5,20 @@ From V Require Import Base.Prelude Base.Val Num.Arith Hub.Types.
 Local Open Scope Z_scope.
 
 (* ---------- byte encodings used in store keys ---------- *)
-Fixpoint be (w : nat) (x : Z) : bytes :=
+(* specification: the w-byte big-endian encoding, byte by byte *)
+Fixpoint be_spec (w : nat) (x : Z) : bytes :=
   match w with
   | O => []
-  | S w' => Z.to_N ((x / 256 ^ Z.of_nat w') mod 256) :: be w' x
+  | S w' => Z.to_N ((x / 256 ^ Z.of_nat w') mod 256) :: be_spec w' x
   end.
+(* the same bytes with one division by 256 per byte (Proofs/C10Order.v: be_eq); the model is executed on long
+   histories with hundreds of pooled transfers, whose keys are compared when the pool is iterated *)
+Fixpoint be_acc (w : nat) (x : Z) (acc : bytes) : bytes :=
+  match w with
+  | O => acc
+  | S w' => be_acc w' (x / 256) (Z.to_N (x mod 256) :: acc)
+  end.
+Definition be (w : nat) (x : Z) : bytes := be_acc w x [].
 
 (* MakeSendToExternalKey without the common prefix byte: chain | tokenId | fee(32) | id(8) *)
 Definition pool_key (e : ste) : bytes :=
